@@ -1268,6 +1268,8 @@ func c19Instances(add func(*Instance), thorough bool) {
 			ad(with(base, "st", 10, "sc", 0, "neg", 1), 1)
 		}
 		if pkg == "roaring64" {
+			ad(with(base, "st", 8, "sc", 0, "othneg", 1), 0) // Increment of a non-negative column while another column holds a negative value
+			ad(with(base, "st", 8, "sc", 1, "othneg", 1, "w", 3), 0)
 			ad(with(base, "st", 1, "w2", 3, "sc", 0), 0)
 			ad(with(base, "st", 4, "sc", 0), 0)
 			ad(with(base, "st", 4, "sc", 2), 0)
